@@ -933,6 +933,67 @@ def cross_resolve(sx, kind):
     return [mine, theirs, got]
 
 
+def send_side(sx, how):
+    """the local device sends: a connection-less socket of A, optionally
+    connect()ed to a remote address, sends a datagram to a (symbolic)
+    destination.  Either the call fails with an Error and nothing arrives at
+    the remote device, or the datagram arrives exactly at the remote socket
+    bound at the destination that was named (payload, boundaries, source
+    address intact) and nowhere else."""
+    n = Net(sx)
+    A, B = n.A, n.mk()
+    sa = A.socket(LDL)
+    if how != "unbound":
+        A.bind(sa)
+    rx = {}
+    for addr in (33, 40, 41):
+        b = B.socket(LDL)
+        B.setsockopt(b, nfc.llcp.SO_RCVBUF, 2)
+        B.bind(b, addr)
+        rx[addr] = b
+    peer = None
+    if how == "connected":
+        peer = sx.pick("peer", [40, 41, 50])
+        A.connect(sa, peer)
+        sx.reach("send-side:connected")
+    m = sx.bytes("m", sx.pick("len", [0, 3]))
+    if how == "connected" and sx.pick("call", ["sendto", "send"]) == "send":
+        dest = peer
+        try:
+            ok = A.send(sa, m, DONTWAIT)
+            failed = None
+        except nfc.llcp.Error as e:
+            failed = e.errno
+    else:
+        dest = sx.int("dest", 32, 42)
+        try:
+            ok = A.sendto(sa, m, dest, DONTWAIT)
+            failed = None
+        except nfc.llcp.Error as e:
+            failed = e.errno
+    n.transfer(A, B, "send-side")
+    if failed is not None:
+        sx.reach("send-side:refused")
+        for addr, b in rx.items():
+            sx.check(not B.poll(b, "recv", 0.0), "send-side:refused-datagram-delivered")
+        if peer is not None:
+            sx.check(sx.neg(sx.eq(dest, peer)), "send-side:datagram-to-connected-peer-refused")
+        return ["refused", failed]
+    d = sx.concrete(dest)
+    for addr, b in rx.items():
+        if addr == d:
+            if not B.poll(b, "recv", 0.0):
+                sx.check(False, "send-side:did-not-reach-the-destination-socket")
+            data, sender = B.recvfrom(b)
+            sx.check(same(sx, data, m), "send-side:payload-or-boundaries-changed")
+            sx.check(sender == A.getsockname(sa), "send-side:source-address-changed")
+            sx.check(not B.poll(b, "recv", 0.0), "send-side:duplicated")
+            sx.reach("send-side:delivered")
+        else:
+            sx.check(not B.poll(b, "recv", 0.0), "send-side:delivered-to-wrong-socket")
+    return ["sent", d]
+
+
 def reset(sx):
     envl.WhileWaiting.fn = None
 
@@ -1173,6 +1234,8 @@ def partitions(tier):
         for t2 in ("LDL", "DLC"):
             parts.append(dict(name="reclose:%s:%s" % (t1, t2), fn="reclose",
                               params=dict(t1=t1, t2=t2)))
+    for how in ("bound", "unbound", "connected"):
+        parts.append(dict(name="send-side:" + how, fn="send_side", params=dict(how=how)))
     for kind in ("sendto", "connect"):
         parts.append(dict(name="cross-resolve:" + kind, fn="cross_resolve",
                           params=dict(kind=kind)))
@@ -1193,7 +1256,7 @@ def partitions(tier):
     return parts
 
 
-MUST_REACH = ["history-end", "EAGAIN", "bind-addr-ok", "bind-addr:EFAULT",
+MUST_REACH = ["send-side:connected", "send-side:refused", "send-side:delivered", "history-end", "EAGAIN", "bind-addr-ok", "bind-addr:EFAULT",
               "bind-addr:EACCES", "bind-addr:EADDRINUSE", "bind-name:EFAULT",
               "bind-name:EADDRINUSE", "bind-name:well-known", "bind-name:ok",
               "bind-name:exhausted", "close:last-socket", "close:not-last-socket",
